@@ -6,9 +6,9 @@ import (
 	t "github.com/tinode/chat/server/store/types"
 )
 
-// DumpSubs returns the subscription rows stored under a topic name, whether or not a topic
+// DumpSubsC07 returns the subscription rows stored under a topic name, whether or not a topic
 // row exists ('me' and 'fnd' have none).  Added for the C07 driver; read-only.
-func DumpSubs(name string) []SubDump {
+func DumpSubsC07(name string) []SubDump {
 	a := theAdapter
 	a.mu.Lock()
 	defer a.mu.Unlock()
